@@ -333,6 +333,9 @@ Outcome run_gen(const Plan & plan, const RunCtx & ctx)
   const bool want_canon = check07 || (ctx.prop == "C08" && plan.suite == "gen-hist");
   const bool check04 = ctx.prop == "C04";
   i64 & n_shots = out.ctr["shots"];
+  // guarded-tables seam (ASan flavour): calls of decay0_divdif made by this run with both tables re-homed
+  struct GuardedCalls { Outcome & o; long c0; ~GuardedCalls() { long d = __atomic_load_n(&g_guarded_table_calls, __ATOMIC_RELAXED) - c0; if (d > 0) o.ctr["probe_divdif_calls_on_guarded_tables"] += d; } }
+      guarded_calls{out, __atomic_load_n(&g_guarded_table_calls, __ATOMIC_RELAXED)};
   i64 & n_compared = out.ctr["shots_compared_with_canonical"];
   std::set<std::string> cover;
 
